@@ -323,14 +323,34 @@ def run(ctx):
               message="bracket id is not computed by _get_bracket_id(study, trial)", how="single assignment")
     ti = hcls.methods.get("_try_initialization")
     ctx.require(ti is not None, "R16.4: _try_initialization vanished")
-    ctor = [c for c in own_nodes(ti.node) if isinstance(c, ast.Call) and dotted(c.func) == "SuccessiveHalvingPruner"]
-    ctx.require(len(ctor) == 1, "R16.4: SuccessiveHalvingPruner construction not found")
+    # the bracket pruners are built in _try_initialization or in a helper it calls once per bracket
+    ctors = [(m, c) for m in hcls.methods.values() for c in own_nodes(m.node) if isinstance(c, ast.Call) and dotted(c.func) == "SuccessiveHalvingPruner"]
+    ctx.require(len(ctors) == 1, "R16.4: SuccessiveHalvingPruner construction not found (exactly one expected in HyperbandPruner)")
+    cm, ctor0 = ctors[0]
+
+    def bracket_loop_var(fn):
+        """loop variables of `for <v> in range(self._n_brackets)` in the function"""
+        return {n.target.id for n in own_nodes(fn.node) if isinstance(n, ast.For) and isinstance(n.target, ast.Name)
+                and norm(n.iter) == "range(self._n_brackets)"}
+    def is_bracket_id(a):
+        if not isinstance(a, ast.Name):
+            return False
+        if a.id in bracket_loop_var(cm):
+            return True
+        if cm is not ti and a.id in cm.params():
+            # helper: every call site in _try_initialization passes the bracket loop variable for that parameter
+            idx = cm.params().index(a.id) - 1
+            sites = [c for c in own_nodes(ti.node) if isinstance(c, ast.Call) and self_attr(c.func) == cm.name]
+            return bool(sites) and all((kwarg(c, a.id, idx) is not None and isinstance(kwarg(c, a.id, idx), ast.Name)
+                                        and kwarg(c, a.id, idx).id in bracket_loop_var(ti)) for c in sites)
+        return False
     want = {"min_resource": "self._min_resource", "reduction_factor": "self._reduction_factor",
-            "min_early_stopping_rate": "bracket_id", "bootstrap_count": "self._bootstrap_count"}
+            "min_early_stopping_rate": None, "bootstrap_count": "self._bootstrap_count"}
     for k, v in want.items():
-        a = kwarg(ctor[0], k)
-        ctx.check(a is not None and norm(a) == v, "R16.4", ti.short, f"bracket-pruner-arg:{k}",
-                  message=f"bracket pruners are built with {k}={norm(a) if a is not None else None} instead of {v}", how="constructor-argument provenance")
+        a = kwarg(ctor0, k)
+        ok = a is not None and (norm(a) == v if v is not None else is_bracket_id(a))
+        ctx.check(ok, "R16.4", cm.short, f"bracket-pruner-arg:{k}",
+                  message=f"bracket pruners are built with {k}={norm(a) if a is not None else None} instead of {v or 'the bracket index'}", how="constructor-argument provenance")
     f = hcls.methods.get("_get_bracket_id")
     ctx.require(f is not None, "R16.4: _get_bracket_id vanished")
     allowed_attrs = {"study.study_name", "trial.number", "self._pruners", "self._n_brackets", "self._total_trial_allocation_budget",
